@@ -105,17 +105,16 @@ Proof.
     assert (Hpw : 1 <= 2 ^ e_ct e1) by (assert (0 < 2 ^ e_ct e1) by (apply Z.pow_pos_nonneg; lia); lia).
     assert (Hmul : e_c e1 + 1 <= (e_c e1 + 1) * 2 ^ e_ct e1) by nia.
     assert (Hbo : bo_pre 1 e1 last stale).
-    { constructor; try assumption; try lia. intros Hp'. specialize (Hff Hp'). lia. }
+    { constructor; try assumption; try lia. }
     destruct (byteout_spec 1 e1 last stale Hbo) as (_ & _ & last' & v & Epre & _ & Hbuf' & _).
     apply (Hout (last' :: e_pre e1)); [eapply buf_ok_tail; exact Hbuf' | right | exact Epre].
     cbn [hd].
     (* last' = last because c < 2^27 *)
     assert (Hc27 : e_c e1 < 2 ^ 27).
     { change (2 ^ 27) with 134217728.
-      destruct (Z.le_gt_cases 7 (e_ct e1)) as [H7|H7].
-      - assert (128 <= 2 ^ e_ct e1) by (change 128 with (2 ^ 7); apply Z.pow_le_mono_r; lia). lia.
-      - (* the loop did not run: e1 = e and (c + a) * 2^ct bounds c *)
-        nia. }
+      assert (H2 : 2 <= 2 ^ e_ct e1) by (change 2 with (2 ^ 1) at 1; apply Z.pow_le_mono_r; lia).
+      assert ((e_c e1 + 1) * 2 <= (e_c e1 + 1) * 2 ^ e_ct e1) by (apply Z.mul_le_mono_nonneg_l; lia).
+      lia. }
     revert Epre. unfold enc_byteout. rewrite Hpost.
     change 0xFF with 255. destruct (Z.eqb_spec last 255); [contradiction|].
     change 0x8000000 with (2 ^ 27).
@@ -131,4 +130,245 @@ Proof.
   intros cx l Hcx. cbv zeta.
   destruct (enc_erterm_no_marker _ (enc_encode_list_inv l _ (enc_new_inv cx Hcx))) as (H1 & _ & H2).
   split; assumption.
+Qed.
+
+(* ====================================================================================
+   RAW (bypass) segments: BypassInitEnc ; BypassEncode* ; BypassFlushEnc(erterm).
+   The bytes this sequence leaves in the buffer above the starting position: every 0xFF is
+   followed by a byte < 0x80, and the segment does not end in 0xFF (for erterm = true this
+   is the FF 2A rule; for erterm = false a trailing FF / FF 7F is dropped) - provided the byte
+   before the segment is not 0xFF (true after Flush and after ErtermEnc, see above).
+   ==================================================================================== *)
+Fixpoint nm128_rev (l : list Z) : Prop :=
+  match l with
+  | y :: t => match t with x :: _ => (x = 255 -> y < 128) | [] => True end /\ nm128_rev t
+  | [] => True
+  end.
+
+Lemma nm128_rev_tail : forall y t, nm128_rev (y :: t) -> nm128_rev t.
+Proof. intros y t [_ H]. exact H. Qed.
+
+Lemma nm128_rev_app : forall A y x B, nm128_rev (A ++ y :: x :: B) -> x = 255 -> y < 128.
+Proof.
+  induction A as [|a A IH]; intros y x B H Hx.
+  - simpl in H. tauto.
+  - apply (IH y x B); [|exact Hx]. simpl app in H. eapply nm128_rev_tail. exact H.
+Qed.
+
+Definition seg_limit (sr : list Z) : Z := if hd 0 sr =? 255 then 128 else 256.
+
+Record byp_inv (base : list Z) (e : enc) (sr : list Z) : Prop := {
+  bi_pre : e_pre e = sr ++ base;
+  bi_bytes : Forall is_byteP sr;
+  bi_nm : nm128_rev sr;
+  bi_reg : (e_ct e = bypass_ct_init /\ e_c e = 0 /\ sr = []) \/
+           (1 <= e_ct e <= 8 /\ 0 <= e_c e /\ e_c e + 2 ^ e_ct e <= seg_limit sr /\
+            (e_ct e = 8 -> sr <> [])) }.
+
+Lemma byp_encode_inv : forall base e sr bit, byp_inv base e sr -> (bit = 0 \/ bit = 1) ->
+  exists sr', byp_inv base (enc_bypass_encode e bit) sr'.
+Proof.
+  intros base e sr bit [Hpre Hb Hn Hreg] Hbit. unfold enc_bypass_encode.
+  (* ct after the optional INIT -> 8 *)
+  assert (Hct0 : exists ct0, (if e_ct e =? bypass_ct_init then 8 else e_ct e) = ct0 /\
+            1 <= ct0 <= 8 /\ 0 <= e_c e /\ e_c e + 2 ^ ct0 <= seg_limit sr).
+  { destruct Hreg as [(E & Ec & Es)|(Hct & Hc & Hl & _)].
+    - rewrite E. change (bypass_ct_init =? bypass_ct_init) with true. exists 8.
+      rewrite Ec, Es. unfold seg_limit. simpl. repeat split; lia.
+    - destruct (Z.eqb_spec (e_ct e) bypass_ct_init) as [E|_];
+        [unfold bypass_ct_init in E; lia|]. exists (e_ct e). auto. }
+  destruct Hct0 as (ct0 & -> & Hct & Hc & Hl).
+  assert (Hlim : seg_limit sr <= 256) by (unfold seg_limit; destruct (hd 0 sr =? 255); lia).
+  assert (Hp : 2 ^ ct0 = 2 * 2 ^ (ct0 - 1) /\ 1 <= 2 ^ (ct0 - 1)) by (apply pow2_split; lia).
+  destruct Hp as [Hp2 Hp1].
+  assert (Hsh : shl32 (u32 bit) (ct0 - 1) = bit * 2 ^ (ct0 - 1)).
+  { unfold shl32. replace ((0 <=? ct0 - 1) && (ct0 - 1 <? 32)) with true
+      by (symmetry; apply andb_true_iff; split; [apply Z.leb_le | apply Z.ltb_lt]; lia).
+    rewrite (u32_small bit) by (change (2 ^ 32) with 4294967296; lia).
+    rewrite shiftl_mul by lia. apply u32_small.
+    assert (2 ^ (ct0 - 1) <= 128) by lia. change (2 ^ 32) with 4294967296. nia. }
+  rewrite Hsh.
+  assert (Hc1 : 0 <= e_c e + bit * 2 ^ (ct0 - 1) /\
+                e_c e + bit * 2 ^ (ct0 - 1) + 2 ^ (ct0 - 1) <= seg_limit sr) by nia.
+  rewrite (u32_small (e_c e + bit * 2 ^ (ct0 - 1))) by (change (2 ^ 32) with 4294967296; lia).
+  set (c1 := e_c e + bit * 2 ^ (ct0 - 1)) in *.
+  destruct (Z.eqb_spec (ct0 - 1) 0) as [Hz|Hnz].
+  - (* the byte is complete *)
+    replace (ct0 - 1) with 0 in Hc1 by lia. change (2 ^ 0) with 1 in Hc1.
+    rewrite (u8_small c1) by lia. change 0xFF with 255.
+    exists (c1 :: sr). unfold buf_write_advance.
+    constructor; cbn [e_pre e_ct e_c].
+    + rewrite Hpre. reflexivity.
+    + constructor; [unfold is_byteP; lia | exact Hb].
+    + split; [|exact Hn]. destruct sr as [|x t]; [exact I|]. unfold seg_limit in Hc1. cbn [hd] in Hc1.
+      intros Hx. rewrite Hx in Hc1. change (255 =? 255) with true in Hc1. lia.
+    + right. unfold seg_limit. cbn [hd].
+      destruct (Z.eqb_spec c1 255) as [E|E]; change (2 ^ 7) with 128; change (2 ^ 8) with 256;
+        repeat split; try lia; intros; discriminate.
+  - exists sr. constructor; cbn [e_pre e_ct e_c]; try assumption.
+    right. repeat split; try lia.
+Qed.
+
+Lemma byp_encode_list_inv : forall bits base e sr, byp_inv base e sr ->
+  Forall (fun b => b = 0 \/ b = 1) bits ->
+  exists sr', byp_inv base (fold_left enc_bypass_encode bits e) sr'.
+Proof.
+  induction bits as [|b t IH]; intros base e sr H Hb; [exists sr; exact H|].
+  inversion Hb; subst. cbn [fold_left].
+  destruct (byp_encode_inv base e sr b H ltac:(assumption)) as (sr1 & H1).
+  exact (IH base _ sr1 H1 ltac:(assumption)).
+Qed.
+
+(* the padding loop: alternating 0,1,0,... below the bits already present *)
+Lemma bypass_pad_spec : forall fuel ct c bitv, 0 <= ct <= Z.of_nat fuel -> ct <= 8 ->
+  (bitv = 0 \/ bitv = 1) -> 0 <= c -> c + 2 ^ ct <= 256 ->
+  fst (bypass_pad fuel ct c bitv) = 0 /\
+  c <= snd (bypass_pad fuel ct c bitv) /\
+  (1 <= ct -> snd (bypass_pad fuel ct c bitv) + 1 <= c + (if bitv =? 0 then 2 ^ (ct - 1) else 2 ^ ct)) /\
+  (ct = 0 -> snd (bypass_pad fuel ct c bitv) = c).
+Proof.
+  induction fuel as [|f IH]; intros ct c bitv Hct H8 Hb Hc Hl.
+  - cbn [bypass_pad fst snd]. change (Z.of_nat 0) with 0 in Hct. repeat split; try lia.
+  - cbn [bypass_pad]. destruct (Z.ltb_spec 0 ct) as [Hpos|Hle];
+      [|cbn [fst snd]; repeat split; lia].
+    assert (Hp : 2 ^ ct = 2 * 2 ^ (ct - 1) /\ 1 <= 2 ^ (ct - 1)) by (apply pow2_split; lia).
+    destruct Hp as [Hp2 Hp1].
+    assert (Hsh : shl32 (u32 bitv) (ct - 1) = bitv * 2 ^ (ct - 1)).
+    { unfold shl32. replace ((0 <=? ct - 1) && (ct - 1 <? 32)) with true
+        by (symmetry; apply andb_true_iff; split; [apply Z.leb_le | apply Z.ltb_lt]; lia).
+      rewrite (u32_small bitv) by (change (2 ^ 32) with 4294967296; lia).
+      rewrite shiftl_mul by lia. apply u32_small. change (2 ^ 32) with 4294967296. destruct Hb as [E|E]; rewrite E; lia. }
+    rewrite Hsh.
+    rewrite (u32_small (c + bitv * 2 ^ (ct - 1))) by (change (2 ^ 32) with 4294967296; destruct Hb as [E|E]; rewrite E; lia).
+    set (c' := c + bitv * 2 ^ (ct - 1)).
+    set (b' := if bitv =? 0 then 1 else 0).
+    assert (Hb' : b' = 0 \/ b' = 1) by (unfold b'; destruct (bitv =? 0); auto).
+    destruct (IH (ct - 1) c' b') as (I1 & I2 & I3 & I4); try lia; try assumption.
+    assert (Hcc : c <= c' /\ c' <= c + 2 ^ (ct - 1)) by (unfold c'; destruct Hb as [E|E]; rewrite E; lia).
+    split; [exact I1|]. split; [lia|]. split; [|intros; lia].
+    intros _. destruct (Z.eq_dec (ct - 1) 0) as [E0|E0].
+    + rewrite (I4 E0). unfold c'. replace (ct - 1) with 0 by lia. change (2 ^ 0) with 1.
+      replace ct with 1 by lia. change (2 ^ 1) with 2. change (2 ^ (1 - 1)) with 1.
+      destruct Hb as [E|E]; rewrite E; [change (0 =? 0) with true | change (1 =? 0) with false]; cbv iota; lia.
+    + specialize (I3 ltac:(lia)).
+      assert (Hp' : 2 ^ (ct - 1) = 2 * 2 ^ (ct - 1 - 1) /\ 1 <= 2 ^ (ct - 1 - 1)) by (apply pow2_split; lia).
+      destruct Hp' as [Hq2 Hq1].
+      destruct Hb as [E|E].
+      * assert (Eb : (b' =? 0) = false) by (unfold b'; rewrite E; reflexivity).
+        assert (Ec : c' = c) by (unfold c'; rewrite E; ring).
+        rewrite Eb in I3. rewrite E. change (0 =? 0) with true. cbv iota. lia.
+      * assert (Eb : (b' =? 0) = true) by (unfold b'; rewrite E; reflexivity).
+        assert (Ec : c' = c + 2 ^ (ct - 1)) by (unfold c'; rewrite E; ring).
+        rewrite Eb in I3. rewrite E. change (1 =? 0) with false. cbv iota. lia.
+Qed.
+
+Theorem bypass_segment_no_marker : forall e0 bits erterm,
+  Forall (fun b => b = 0 \/ b = 1) bits ->
+  (e_pre e0 = [] \/ hd 0 (e_pre e0) <> 255) ->
+  let e3 := enc_bypass_flush (fold_left enc_bypass_encode bits (enc_bypass_init e0)) erterm in
+  exists seg, e_pre e3 = rev seg ++ e_pre e0 /\ Forall is_byteP seg /\
+    (forall l1 y l2, seg = l1 ++ 255 :: y :: l2 -> y < 0x80) /\
+    (forall l1, seg <> l1 ++ [255]).
+Proof.
+  intros e0 bits erterm Hbits Hbase. cbv zeta.
+  assert (H0 : byp_inv (e_pre e0) (enc_bypass_init e0) []).
+  { constructor; unfold enc_bypass_init; cbn [e_pre e_ct e_c].
+    - reflexivity.
+    - constructor.
+    - exact I.
+    - left. auto. }
+  destruct (byp_encode_list_inv bits _ _ _ H0 Hbits) as (sr & [Hpre Hb Hn Hreg]).
+  set (e2 := fold_left enc_bypass_encode bits (enc_bypass_init e0)) in *.
+  (* it suffices to exhibit the reversed segment with head <> FF *)
+  assert (Hfin : forall (PP : list Z) sr', PP = sr' ++ e_pre e0 ->
+            Forall is_byteP sr' -> nm128_rev sr' -> (sr' = [] \/ hd 0 sr' <> 255) ->
+            exists seg, PP = rev seg ++ e_pre e0 /\ Forall is_byteP seg /\
+              (forall l1 y l2, seg = l1 ++ 255 :: y :: l2 -> y < 0x80) /\
+              (forall l1, seg <> l1 ++ [255])).
+  { intros PP sr' E Hb' Hn' Hh. exists (rev sr'). rewrite rev_involutive.
+    split; [exact E|]. split; [apply Forall_rev; exact Hb'|]. split.
+    - intros l1 y l2 Es. apply (f_equal (@rev Z)) in Es. rewrite rev_involutive in Es.
+      rewrite rev_app_distr in Es. cbn [rev] in Es. rewrite <- !app_assoc in Es. cbn [app] in Es.
+      rewrite Es in Hn'. change 0x80 with 128. apply (nm128_rev_app _ _ _ _ Hn'). reflexivity.
+    - intros l1 Es. apply (f_equal (@rev Z)) in Es. rewrite rev_involutive in Es.
+      rewrite rev_app_distr in Es. cbn [rev app] in Es.
+      destruct Hh as [Hh|Hh]; [rewrite Hh in Es; discriminate | rewrite Es in Hh; simpl in Hh; congruence]. }
+  (* previous byte tests in terms of sr *)
+  assert (Hprev_is : prev_is e2 255 = true -> exists t, sr = 255 :: t).
+  { unfold prev_is. rewrite Hpre. destruct sr as [|x t]; cbn [app].
+    - destruct Hbase as [-> | Hh]; [discriminate|]. destruct (e_pre e0); [discriminate|].
+      cbn [hd] in Hh. intros E. apply Z.eqb_eq in E. contradiction.
+    - intros E. apply Z.eqb_eq in E. exists t. congruence. }
+  unfold enc_bypass_flush. change 0xFF with 255. change 0x7F with 127.
+  destruct Hreg as [(Ect & Ec & Es)|(Hct & Hc & Hl & H8)].
+  - (* no bit was coded *)
+    rewrite Ect.
+    replace (bypass_ct_init <? 7) with false by reflexivity.
+    replace (bypass_ct_init =? 7) with false by reflexivity.
+    replace (bypass_ct_init =? 8) with false by reflexivity. cbn [andb orb].
+    subst sr. cbn [app] in Hpre.
+    assert (E3 : match e_pre e2 with
+                 | x1 :: x2 :: p => if false then mkEnc (e_a e2) (e_c e2) (e_ct e2) p (x2 :: x1 :: e_post e2) (e_cx e2) else e2
+                 | _ => e2 end = e2) by (destruct (e_pre e2) as [|x1 [|x2 p]]; reflexivity).
+    rewrite E3. apply (Hfin _ []); [exact Hpre | constructor | exact I | left; reflexivity].
+  - assert (Hlim : seg_limit sr <= 256) by (unfold seg_limit; destruct (hd 0 sr =? 255); lia).
+    destruct ((e_ct e2 <? 7) || ((e_ct e2 =? 7) && (erterm || prev_isnt e2 255))) eqn:Eb1.
+    + (* pad and write one more byte *)
+      assert (Hct7 : e_ct e2 <= 7).
+      { apply orb_true_iff in Eb1. destruct Eb1 as [E|E]; [apply Z.ltb_lt in E; lia|].
+        apply andb_true_iff in E. destruct E as [E _]. apply Z.eqb_eq in E. lia. }
+      destruct (bypass_pad_spec 8 (e_ct e2) (e_c e2) 0
+                  ltac:(change (Z.of_nat 8) with 8; lia) ltac:(lia) (or_introl eq_refl) Hc ltac:(lia))
+        as (P1 & P2 & P3 & _).
+      destruct (bypass_pad 8 (e_ct e2) (e_c e2) 0) as [ctp cp] eqn:Epad. cbn [fst snd] in *.
+      specialize (P3 ltac:(lia)). change (0 =? 0) with true in P3. cbv iota in P3.
+      assert (Hp : 2 ^ e_ct e2 = 2 * 2 ^ (e_ct e2 - 1) /\ 1 <= 2 ^ (e_ct e2 - 1)) by (apply pow2_split; lia).
+      destruct Hp as [Hp2 Hp1].
+      rewrite (u8_small cp) by lia.
+      unfold buf_write_advance. apply (Hfin _ (cp :: sr)); cbn [e_pre].
+      * rewrite Hpre. reflexivity.
+      * constructor; [unfold is_byteP; lia | exact Hb].
+      * split; [|exact Hn]. destruct sr as [|x t]; [exact I|]. unfold seg_limit in Hl. cbn [hd] in Hl.
+        intros Hx. rewrite Hx in Hl. change (255 =? 255) with true in Hl. cbv iota in Hl. lia.
+      * right. cbn [hd]. lia.
+    + destruct ((e_ct e2 =? 7) && prev_is e2 255) eqn:Eb2.
+      * (* trailing FF: dropped unless erterm (excluded here) *)
+        apply andb_true_iff in Eb2. destruct Eb2 as [E7 Epi]. apply Z.eqb_eq in E7.
+        destruct (Hprev_is Epi) as (t & Esr).
+        assert (Hert : erterm = false).
+        { rewrite E7 in Eb1. change (7 <? 7) with false in Eb1. change (7 =? 7) with true in Eb1.
+          cbn [orb andb] in Eb1. destruct erterm; [discriminate | reflexivity]. }
+        rewrite Hert. rewrite Hpre, Esr. cbn [app e_pre]. subst sr.
+        inversion Hb; subst. apply (Hfin _ t); [reflexivity | assumption | eapply nm128_rev_tail; exact Hn |].
+        destruct t as [|y t']; [left; reflexivity | right]. cbn [hd].
+        destruct Hn as [Hh _]. intros Ey. specialize (Hh Ey). lia.
+      * (* nothing to pad; possibly drop FF 7F *)
+        assert (Hhd : sr = [] \/ hd 0 sr <> 255).
+        { destruct sr as [|x t]; [left; reflexivity | right]. cbn [hd]. intros Ex.
+          unfold seg_limit in Hl. cbn [hd] in Hl. rewrite Ex in Hl. change (255 =? 255) with true in Hl.
+          (* then ct <= 7, and ct < 7 or ct = 7 with prev FF would have taken an earlier branch *)
+          assert (e_ct e2 <= 7).
+          { destruct (Z.le_gt_cases (e_ct e2) 7); [assumption|].
+            assert (E8 : e_ct e2 = 8) by lia. rewrite E8 in Hl. change (2 ^ 8) with 256 in Hl. cbv iota in Hl. lia. }
+          apply orb_false_iff in Eb1. destruct Eb1 as [E1 _]. apply Z.ltb_ge in E1.
+          assert (E7 : e_ct e2 = 7) by lia.
+          rewrite E7 in Eb2. change (7 =? 7) with true in Eb2. cbn [andb] in Eb2.
+          unfold prev_is in Eb2. rewrite Hpre in Eb2. cbn [app] in Eb2. rewrite Ex in Eb2. discriminate. }
+        destruct (e_pre e2) as [|x1 [|x2 p]] eqn:Ep;
+          try (apply (Hfin _ sr); [rewrite Ep; exact Hpre | assumption | assumption | assumption]).
+        destruct ((e_ct e2 =? 8) && negb erterm && (x1 =? 127) && (x2 =? 255)) eqn:Eb3;
+          [|apply (Hfin _ sr); [rewrite Ep; exact Hpre | assumption | assumption | assumption]].
+        repeat (apply andb_true_iff in Eb3; destruct Eb3 as [Eb3 ?]).
+        apply Z.eqb_eq in Eb3. repeat match goal with H : (_ =? _) = true |- _ => apply Z.eqb_eq in H end.
+        subst x1 x2. cbn [e_pre].
+        (* both dropped bytes belong to the segment *)
+        destruct sr as [|s1 [|s2 t]].
+        { exfalso. apply (H8 Eb3). reflexivity. }
+        { exfalso. cbn [app] in Hpre. destruct (e_pre e0) as [|b0 bt]; [discriminate|].
+          inversion Hpre; subst. destruct Hbase as [?|Hh]; [discriminate | cbn [hd] in Hh; congruence]. }
+        cbn [app] in Hpre. inversion Hpre; subst.
+        inversion Hb as [|? ? _ Hb2]; subst. inversion Hb2; subst.
+        apply (Hfin _ t); [reflexivity | assumption | eapply nm128_rev_tail, nm128_rev_tail; exact Hn |].
+        destruct t as [|y t']; [left; reflexivity | right]. cbn [hd].
+        destruct Hn as [_ [Hh _]]. intros Ey. specialize (Hh Ey). lia.
 Qed.
